@@ -40,6 +40,9 @@ POOL_BASES = [
     ("MYSQL", "SELECT a + b, c - d, e * f, g / h, i % j, k DIV l, m & n, o | p, q ^ r, s << 2, t >> 3, - u, ~ v, ! w FROM x WHERE a = 1 AND b != 2 AND c < 3 AND d <= 4 AND e > 5 AND f >= 6 AND g <=> 7 AND NOT h"),
     ("MYSQL", "SELECT a, COUNT(DISTINCT b) FROM t GROUP BY a, c WITH ROLLUP HAVING COUNT(b) > 1 ORDER BY a ASC, c DESC LIMIT 3"),
     ("HIVE", "SELECT a FROM t GROUP BY a, b GROUPING SETS ((a, b), (a)) ORDER BY a NULLS FIRST"),
+    ("MYSQL", "SELECT a, b, c FROM t GROUP BY GROUPING SETS ((a, b), a, (c), (a, b + 1, c))"),
+    ("HIVE", "SELECT a, SUM(x) FROM t GROUP BY a, b WITH CUBE"),
+    ("MYSQL", "SELECT CAST(a AS DECIMAL(10, 2)), CAST(b AS CHAR) FROM t WHERE (a, b) IN ((1, 2), (3, 4))"),
     ("MYSQL", "SELECT a FROM t INNER JOIN u ON t.a = u.a RIGHT OUTER JOIN v ON u.b = v.b CROSS JOIN w UNION ALL SELECT b FROM x UNION SELECT c FROM y EXCEPT SELECT d FROM z"),
     ("MYSQL", "WITH w1 AS (SELECT a FROM t), w2 AS (SELECT b FROM w1) SELECT q.a FROM (SELECT a FROM w2) q"),
     ("HIVE", "SELECT a, x, arr[1] FROM t LATERAL VIEW OUTER explode(b) v AS x, y SORT BY a DISTRIBUTE BY b"),
